@@ -1023,8 +1023,8 @@ func init() {
 				seenHeader := map[*ssa.BasicBlock]bool{}
 				for _, site := range callsIn(fn) {
 					cv, ok := site.(*ssa.Call)
-					if !ok || calleeName(site.Common()) != "(reflect.Value).Elem" {
-						continue
+					if nm := calleeName(site.Common()); !ok || (nm != "(reflect.Value).Elem" && nm != "reflect.Type.Elem" && nm != "(reflect.Type).Elem") {
+						continue // (a loop over the *type* `for t.Kind() == reflect.Pointer { t = t.Elem() }` never ends for type P *P either)
 					}
 					h := loopHeaderOf(site.Block())
 					if h == nil || seenHeader[h] {
@@ -1056,7 +1056,7 @@ func init() {
 						for _, in := range b.Instrs {
 							if ifi, ok := in.(*ssa.If); ok {
 								for _, leaf := range condLeaves(ifi.Cond) {
-									if cl, ok := leaf.(*ssa.Call); ok && strings.HasSuffix(calleeName(&cl.Call), ").Kind") {
+									if cl, ok := leaf.(*ssa.Call); ok && (strings.HasSuffix(calleeName(&cl.Call), ").Kind") || calleeName(&cl.Call) == "reflect.Type.Kind") {
 										isPtrLoop = true
 									}
 								}
